@@ -86,6 +86,7 @@ func execB(cs caseB) (o outcomeB) {
 	defer restore()
 
 	var total []byte
+	var scratch []byte
 	check := func(step string, pendingBefore int) bool {
 		shape := "step=" + step
 		if pendingBefore > 0 {
@@ -134,7 +135,17 @@ func execB(cs caseB) (o outcomeB) {
 			if cs.Limited[i] {
 				name = "write-limited"
 			}
-			n, err := conn.Write([]byte(w))
+			// the writer owns one buffer and reuses it for every write, as bufio, io.Copy and the pooled MQTT
+			// encoder do: an io.Writer must not keep p after returning, so the buffer is overwritten right away
+			if cap(scratch) < len(w) {
+				scratch = make([]byte, len(w))
+			}
+			p := scratch[:len(w)]
+			copy(p, w)
+			n, err := conn.Write(p)
+			for j := range p {
+				p[j] = '#'
+			}
 			o.calls++
 			if err != nil {
 				o.v = verdict{"lost", "step=" + name + ":write-error", fmt.Sprintf("Write %d failed on a healthy socket: %v", i, err)}
